@@ -1,6 +1,7 @@
 #!/bin/bash
-# usage: confirm_seed.sh <PROP> <name>   (worktree /tmp/seed_<PROP> with patch applied in working tree, demo_<PROP>.py, patch_<PROP>.diff)
+# usage: confirm_seed.sh <PROP> <name>   (worktree /tmp/seed_<PROP> with the change applied in its working tree, demo_<PROP>.py)
 # Confirms: demo PASS on original, FAIL on changed; pinned suite's stable tests still pass with the change. Writes /verif/seeded/<PROP>-<name>/
+# (no git stash: the stash is shared between worktrees)
 set -u
 P=$1; NAME=$2; WT=/tmp/seed_$P; OUT=/verif/seeded/$P-$NAME
 mkdir -p $OUT
@@ -8,10 +9,9 @@ cd $WT || exit 2
 git diff -- src > $OUT/patch.diff
 [ -s $OUT/patch.diff ] || { echo "no diff"; exit 2; }
 cp demo_$P.py $OUT/demo.py
-# original
-git stash -q -- src
+git apply -R $OUT/patch.diff || { echo "cannot revert"; exit 2; }
 PYTHONPATH=$WT/src timeout 300 /venv/bin/python demo_$P.py > $OUT/demo_original.log 2>&1; o=$?
-git stash pop -q
+git apply $OUT/patch.diff || { echo "cannot re-apply"; exit 2; }
 PYTHONPATH=$WT/src timeout 300 /venv/bin/python demo_$P.py > $OUT/demo_changed.log 2>&1; c=$?
 echo "demo original exit=$o changed exit=$c"
 PYTHONPATH=$WT/src timeout 1500 /venv/bin/python -m pytest -ra -q -p no:cacheprovider --timeout=900 --continue-on-collection-errors --junitxml=/tmp/seed_$P.xml > /tmp/seed_$P.suite.log 2>&1
